@@ -291,7 +291,7 @@ def run(tier):
     rep = common.Report('C13', tier, 'other', './check C13 --tier %s' % tier)
     rep.trust('pyvc, z3, contracts/z80spec (the ISA contracts proved for the closures under C05); CPython + tap2sna itself for the bounded part')
     rep.assume('dec_a hit branches require IFF == 0 (checked by the code): no interrupt can be accepted between the iterations they replace')
-    rep.assume('accelerator matching (signature comparison, move-to-front), LoadTracer.run edge bookkeeping and the C re-implementation CSimulator_load are not under VC: bounded option differential only')
+    rep.assume('accelerator matching (signature comparison, move-to-front), the rest of LoadTracer.run (interrupts, stop conditions, block transitions) and the C re-implementation CSimulator_load are not under VC: bounded option differential only')
     rep.assume('composition of the per-iteration accelerator obligations into `loops` iterations is the induction argument of props/progexec.py (pred preserves cond and inv; D-equivalence is a bisimulation by O3); the induction itself is on paper, its premises are the discharged obligations')
     from props import tablecheck
     for mod, name, b in tablecheck.check_tables(rep, names=('DEC', 'DEC0', 'INC0', 'R1')):
@@ -300,7 +300,8 @@ def run(tier):
     from props import progexec
     progexec.check_accelerators(rep)        # every ACCELERATORS entry: one real trip round the loop == one fast-forwarded iteration
     progexec.check_ffwd_arith(rep)          # the real fast-forward statement of _read_port == `loops` such iterations, never past the edge
-    from props import fastloadvc
+    from props import fastloadvc, edgevc
+    edgevc.check_edge_bookkeeping(rep, 'C13')   # LoadTracer.run: edge index advanced over exactly the edges strictly before the current time
     fastloadvc.check_fast_load(rep, 'C13')  # ROM fast loading: which bytes land where, registers on exit
     fastloadvc.crosscheck_fast_load(rep, 'C13')
     progexec.crosscheck_ffwd(rep, 'C13')
